@@ -428,11 +428,47 @@ def r05_9(run, model):
     run.floor("places where resolve_expr asks for a constructor", n, 2)
 
 
+def r05_10(run, model):
+    run.rule("R05.10", "whether a bare name is a constructor is decided per package: ConstructorIndex::has_variant(package, variant) tests the "
+                       "variant only against data reached through `.get(package)` - the index also holds the variants of every imported "
+                       "package, and a dependency's variant names must stay ordinary binder names in the importer")
+    NR = "crates/compiler/src/typer/name_resolution.rs"
+    f = model.fn("has_variant", NR, impl="ConstructorIndex")
+    params = [p["pat"]["name"] for p in f.params() if not p["self"] and p["pat"]["k"] == "PIdent"]
+    if len(params) < 2:
+        raise AnalysisIncomplete("has_variant: (package, variant) parameters not found")
+    pkg, var = params[0], params[1]
+    par = S.Parents(f.body)
+    tests = [c for c in S.walk(f.body) if c["k"] == "MethodCall" and c["method"] in ("contains", "contains_key", "get") and c["args"] and var in S.idents(c["args"][0])]
+    if not tests:
+        raise AnalysisIncomplete("has_variant: no membership test of the variant found")
+    def scoped(c):
+        # the receiver chain of the test, or of an enclosing adaptor whose closure contains it, goes through .get(package)
+        chain = [c] + [a for a in par.ancestors(c) if a["k"] == "MethodCall"]
+        for m in chain:
+            r = m["recv"]
+            while True:
+                if r["k"] == "MethodCall":
+                    if r["method"] in ("get", "get_mut") and r["args"] and pkg in S.idents(r["args"][0]):
+                        return True
+                    r = r["recv"]
+                else:
+                    break
+        return False
+    for i, c in enumerate(tests, 1):
+        ok = scoped(c)
+        run.ob("R05.10", f"has_variant|membership test #{i} is scoped to the package asked about", ok, site(NR, c["sp"]),
+               f"test: {S.norm_ws(run.facts.text(NR, c['sp']))[:80]}",
+               witness="package Lexer has enum Token { number(int32), plus, total }; in Main `let total = ..; total` stops being a binder: "
+                       "`Constructor total not found in environment`")
+
+
 def run(run, model):
     run.try_rule(r05_7, model)
     run.try_rule(r05_6, model)
     run.try_rule(r05_8, model)
     run.try_rule(r05_9, model)
+    run.try_rule(r05_10, model)
     run.try_rule(r05_5, model)
     run.try_rule(r05_1, model)
     run.try_rule(r05_2, model)
